@@ -1,22 +1,25 @@
 #!/usr/bin/env bash
 # tools/run_seeded.sh <seeded-id> <PROP> [tier]
 # Applies seeded/<id>/patch.diff to a scratch worktree of /repo (never to /repo itself), runs the
-# check of <PROP> against it, prints the verdict, removes the worktree and its build output.
+# check of <PROP> against it and prints the verdict. The worktree lives in a reusable slot
+# (/tmp/rs-slot-$SLOT) so that the harness build for it is incremental; the slot's worktree is
+# removed after the run, its build cache by tools/run_all_seeded.sh at the end of a campaign.
 set -u
 ID="$1"; PROP="$2"; TIER="${3:-quick}"
 VERIF=/verif
-WT="/tmp/rs-$ID-$PROP"
+SLOT="${SLOT:-0}"
+WT="/tmp/rs-slot-$SLOT"
 OUT="/tmp/rs-out-$ID-$PROP"
+exec 9> "/tmp/rs-lock-$SLOT"; flock 9
 git -C /repo worktree remove --force "$WT" >/dev/null 2>&1
+rm -rf "$WT"; git -C /repo worktree prune
 git -C /repo worktree add --detach "$WT" HEAD >/dev/null 2>&1 || exit 2
 ( cd "$WT" && { git apply "$VERIF/seeded/$ID/patch.diff" 2>/dev/null || git apply --3way "$VERIF/seeded/$ID/patch.diff" 2>/dev/null; } ) || { echo "$ID $PROP: patch does not apply"; git -C /repo worktree remove --force "$WT"; exit 2; }
 mkdir -p "$OUT"
 VERIF_REPO="$WT" VERIF_OUT="$OUT" VERIF_BUDGET_S="${VERIF_BUDGET_S:-20}" "$VERIF/bin/check" "$PROP" "$TIER" > "$OUT/log" 2>&1
 rc=$?
 v=$(grep -c '^VIOLATION' "$OUT/log")
-echo "$ID $PROP: exit=$rc violations=$v $(grep -m1 'class=' "$OUT/log" | cut -c1-220)"
+echo "$ID $PROP: exit=$rc violations=$v $(grep -m1 'class=' "$OUT/log" | cut -c1-200)"
 [ "${KEEP:-0}" = 1 ] || rm -rf "$OUT"
-KEY=$(printf '%s' "$WT" | cksum | cut -d' ' -f1)
-rm -rf "$VERIF/build/$KEY"
 git -C /repo worktree remove --force "$WT"
 exit $rc
